@@ -528,7 +528,8 @@ class Spectrum:
                 raise ValueError('Unknown ends ', ends)
 
             # sample
-            f = self.sample(x, method=sample_method, fill_value=fill_value)
+            f = self.sample(x, method=sample_method, fill_value=fill_value,
+                            waveunit=waveunit)
 
             # apply the chained trapezoidal rule
             bins = np.array([])
@@ -553,7 +554,8 @@ class Spectrum:
                 raise ValueError('Unknown ends ', ends)
 
             # sample
-            f = self.sample(x, method=sample_method, fill_value=fill_value)
+            f = self.sample(x, method=sample_method, fill_value=fill_value,
+                            waveunit=waveunit)
 
             # apply the chained simpson's rule
             bins = np.array([])
